@@ -131,6 +131,16 @@ func (f *Field) checkArgs(t Type) (errors []error) {
 				}
 			}
 		}
+		// The meta fields are not in the field list of any type. The only
+		// argument any of them takes is the name of __type.
+		switch f.Name {
+		case "__typename", "__schema", "__type":
+			for _, av := range f.Args {
+				if av != nil && (f.Name != "__type" || av.Arg != nameStr) {
+					errors = append(errors, valError(av.line, av.col, "%s is not an argument to %s", av.Arg, f.Name))
+				}
+			}
+		}
 	}
 	return
 }
